@@ -1,7 +1,10 @@
 package main
 
 import (
+	"encoding/json"
 	"fmt"
+	"os"
+	"path/filepath"
 	"sort"
 	"strings"
 
@@ -103,7 +106,14 @@ func encSetup(s c02Setup) interface{} {
 	return map[string]interface{}{"root": encTree(s.Root), "envs": envs, "resolvers": s.Resolvers}
 }
 
+var c08Mode bool
+
 func c02Cases(g *Gen, s c02Setup, tags ...string) {
+	// remember what is being run: a fatal runtime error (stack overflow) cannot be recovered,
+	// the driver reports this file as the failing input when the harness dies
+	if b, err := json.Marshal(map[string]interface{}{"stream": g.Prop, "setup": encSetup(s), "tags": tags}); err == nil {
+		os.WriteFile(filepath.Join(g.Out, "last_input.json"), b, 0o644)
+	}
 	root, opts, eo, ok := s.build()
 	if !ok {
 		g.Skip("setup does not normalize")
@@ -141,6 +151,18 @@ func c02Cases(g *Gen, s c02Setup, tags ...string) {
 		xo, xd = "(XE "+name+")", descErr(uerr)
 	} else {
 		xo, xd = "(XV "+coqOTree(m)+")", descTree(m)
+	}
+	if c08Mode {
+		var keys []string
+		obs, kd := "None", "DID NOT RETURN"
+		if p, msg := guard(func() { keys = root.FlattenedKeys(opts...) }); !p {
+			obs, kd = "(Some "+coqStrList(keys)+")", fmt.Sprint(keys)
+		} else {
+			kd = "PANIC " + msg
+		}
+		g.Add(Case{Coq: fmt.Sprintf("CFlat %s %s %s", eo, rootC, obs),
+			Desc: map[string]interface{}{"kind": "flat", "setup": encSetup(s), "tree": descValueExp(dump), "observed": kd},
+			Tags: append([]string{"flat"}, tags...), Nontrivial: true})
 	}
 	g.Add(Case{Coq: fmt.Sprintf("CUnpackDyn %s %s %s", eo, rootC, xo),
 		Desc: map[string]interface{}{"kind": "unpack", "setup": encSetup(s), "tree": descValueExp(dump), "observed": xd},
@@ -216,6 +238,22 @@ func (e *expGen) piece(depth int) string {
 
 func genC02(g *Gen, c08 bool) {
 	r := g.R
+	c08Mode = c08
+	if c08 {
+		// references to ancestors / descendants, and the F28 witnesses
+		for i, s := range []c02Setup{
+			{Root: map[string]interface{}{"a": map[string]interface{}{"b": "${a}"}}},
+			{Root: map[string]interface{}{"a": map[string]interface{}{"b": "${a}", "c": 1}, "d": "${a}", "e": "${a.c}"}},
+			{Root: map[string]interface{}{"a": "${a}"}},
+			{Root: map[string]interface{}{"a": map[string]interface{}{"x": "${b}"}, "b": map[string]interface{}{"y": "${a}"}}},
+			{Root: map[string]interface{}{"l": []interface{}{"${l.1}", "${l.0}", "${l}"}}},
+			{Root: map[string]interface{}{"a": "${a.b}"}},
+			{Root: map[string]interface{}{"x": "${y.k}", "y": "${x.k}"}},
+			{Root: map[string]interface{}{"o": map[string]interface{}{"k": "v"}, "p": "${o}", "q": "${p.k}", "r": "${q}${p.k}"}},
+		} {
+			c02Cases(g, s, fmt.Sprintf("witness08:%d", i))
+		}
+	}
 	// fixed witnesses first
 	w := []c02Setup{
 		{Root: map[string]interface{}{"b": "${nope}"}},                                                               // F4
@@ -232,6 +270,10 @@ func genC02(g *Gen, c08 bool) {
 		c02Cases(g, s, fmt.Sprintf("witness:%d", i))
 	}
 	names := []string{"a", "b", "c", "d", "n.x", "n.y", "e1", "e2", "r1", "r2", "l.0", "zz"}
+	if c08 {
+		// names that pass through other settings (which may be references themselves)
+		names = append(names, "a.b", "b.k", "n", "c.x", "a.n.x")
+	}
 	for i := 0; i < g.N; i++ {
 		eg := &expGen{r: r, names: names}
 		s := c02Setup{Root: map[string]interface{}{}}
